@@ -68,6 +68,8 @@ ARG_CHECKED = {
 }
 
 MUTANTS = [
+    {"name": "nil-length-by-equality", "file": "src/protocol/stateless.rs", "after": "fn parse_array_with_depth(", "old": "    if len < 0 {\n        return Ok((ArrayIndex::Nil, consumed));", "new": "    if len == -1 {\n        return Ok((ArrayIndex::Nil, consumed));", "expect": "C16.D3:signed-length-cast"},
+    {"name": "cluster-name-unicode-classes", "file": "src/common/cluster.rs", "old": "            if c.is_ascii_alphanumeric() || c == '@' || c == '-' || c == '_' {", "new": "            if c.is_alphanumeric() || c == '@' || c == '-' || c == '_' {", "expect": "C16.D4:cluster-name-ascii"},
     {"name": "blocking-timeout-as-deadline", "file": "src/proxy/executor.rs", "old": "        let timeout = match Self::get_blocking_command_timeout(&cmd_ctx) {\n            Ok(timeout) => timeout,", "new": "        let timeout = match Self::get_blocking_command_timeout(&cmd_ctx) {\n            Ok(timeout) => {\n                let _deadline = std::time::Instant::now() + std::time::Duration::from_secs(timeout);\n                timeout\n            }", "expect": "C16.D3:time-arith"},
     {"name": "keyless-blpop-accepted", "file": "src/proxy/executor.rs", "old": "            (DataCmdType::Blpop, Some(len)) if len > 2 => Ok(len),", "new": "            (DataCmdType::Blpop, Some(len)) if len >= 2 => Ok(len),", "expect": "C16.D5:arity:Blpop:len=2"},
     {"name": "slowlog-truncate-mid-char", "file": "src/proxy/slowlog.rs", "old": "                s.truncate(end);", "new": "                let _ = end;\n                s.truncate(MAX_ELEMENT_LENGTH);", "expect": "C16.D4"},
